@@ -1,7 +1,7 @@
 #!/bin/sh
 # sequential thorough sweep of all checks from the snapshot, against /repo
-for c in C18 C16 C17 C09 C10 C11 C20 C15 C12 C01 C02 C06 C07 C08 C04 C05 C13 C14 C19 C03; do
+for c in ${CHECKS:-C04 C05 C07 C12 C18 C09 C03 C13 C14 C17 C19 C20 C11 C16 C06 C08 C10 C01 C02 C15}; do
   echo "=== $c $(date +%H:%M:%S)"
-  VV_SHARDS=8 /venv/bin/python -m vv.run $c --tier thorough 2>&1 | grep -E "^(VIOLATION|RESULT|INCONCLUSIVE|KNOWN)" | cut -c1-400
+  VV_SHARDS=${VV_SHARDS:-8} VV_BUDGET_S=${VV_BUDGET_S:-500} /venv/bin/python -m vv.run $c --tier thorough 2>&1 | grep -E "^(VIOLATION|RESULT|INCONCLUSIVE|KNOWN)" | cut -c1-400
 done
 echo "=== done $(date +%H:%M:%S)"
